@@ -91,3 +91,95 @@ def ElseArm.run {St F : Type} (exec : St → Line → Res St F) (holds : St → 
 end
 
 end Avra.Spec
+
+namespace Avra.Spec
+open Avra
+
+/-! ### the selected lines ("the program with the unselected lines deleted") -/
+
+mutual
+/-- like `run`, also returning the plain lines that were assembled, in order -/
+def Block.sel {St F : Type} (exec : St → Line → Res St F) (holds : St → Line → Res (St × Bool) F) :
+    Block → St → Res (St × List Line) F
+  | .plain l, st =>
+    match exec st l with
+    | .ok st' => .ok (st', [l])
+    | .fail e => .fail e
+  | .cond hd body arms els _, st =>
+    match holds st hd with
+    | .fail e => .fail e
+    | .ok (st, true) => body.sel exec holds st
+    | .ok (st, false) =>
+      match arms.sel exec holds st with
+      | .fail e => .fail e
+      | .ok (st, ls, true) => .ok (st, ls)
+      | .ok (st, _, false) => els.sel exec holds st
+def Blocks.sel {St F : Type} (exec : St → Line → Res St F) (holds : St → Line → Res (St × Bool) F) :
+    Blocks → St → Res (St × List Line) F
+  | .nil, st => .ok (st, [])
+  | .cons b bs, st =>
+    match b.sel exec holds st with
+    | .ok (st, l1) =>
+      match bs.sel exec holds st with
+      | .ok (st, l2) => .ok (st, l1 ++ l2)
+      | .fail e => .fail e
+    | .fail e => .fail e
+def Arms.sel {St F : Type} (exec : St → Line → Res St F) (holds : St → Line → Res (St × Bool) F) :
+    Arms → St → Res (St × List Line × Bool) F
+  | .nil, st => .ok (st, [], false)
+  | .cons l body rest, st =>
+    match holds st l with
+    | .fail e => .fail e
+    | .ok (st, true) =>
+      match body.sel exec holds st with
+      | .ok (st, ls) => .ok (st, ls, true)
+      | .fail e => .fail e
+    | .ok (st, false) => rest.sel exec holds st
+def ElseArm.sel {St F : Type} (exec : St → Line → Res St F) (holds : St → Line → Res (St × Bool) F) :
+    ElseArm → St → Res (St × List Line) F
+  | .none, st => .ok (st, [])
+  | .some _ body, st => body.sel exec holds st
+end
+
+mutual
+/-- the lines whose condition is evaluated: heads and `.elif` lines -/
+def Block.condLines : Block → List Line
+  | .plain _ => []
+  | .cond hd body arms els _ => hd :: (body.condLines ++ (arms.condLines ++ els.condLines))
+def Blocks.condLines : Blocks → List Line
+  | .nil => []
+  | .cons b bs => b.condLines ++ bs.condLines
+def Arms.condLines : Arms → List Line
+  | .nil => []
+  | .cons l body rest => l :: (body.condLines ++ rest.condLines)
+def ElseArm.condLines : ElseArm → List Line
+  | .none => []
+  | .some _ body => body.condLines
+end
+
+/-- assembling a list of plain lines one after the other -/
+def runLines {St F : Type} (exec : St → Line → Res St F) : List Line → St → Res St F
+  | [], st => .ok st
+  | l :: ls, st =>
+    match exec st l with
+    | .ok st' => runLines exec ls st'
+    | .fail e => .fail e
+
+/-- a list of plain lines as a tree -/
+def plainBlocks : List Line → Blocks
+  | [] => .nil
+  | l :: ls => .cons (.plain l) (plainBlocks ls)
+
+theorem runLines_append {St F : Type} (exec : St → Line → Res St F) : ∀ (l1 l2 : List Line) (s s1 : St),
+    runLines exec l1 s = .ok s1 → runLines exec (l1 ++ l2) s = runLines exec l2 s1 := by
+  intro l1
+  induction l1 with
+  | nil => intro l2 s s1 h; simp only [runLines, Res.ok.injEq] at h; subst h; rfl
+  | cons l ls ih =>
+    intro l2 s s1 h
+    simp only [List.cons_append, runLines] at h ⊢
+    cases he : exec s l with
+    | ok s' => rw [he] at h; exact ih l2 s' s1 h
+    | fail e => rw [he] at h; cases h
+
+end Avra.Spec
